@@ -260,6 +260,12 @@ def c12e(tree, ob):
                         break
         lp = one(loops, 'security block loop', ob)
         wit = aliased_list_mutation(tree, cg, fv, lp, None)
+        if not wit:
+            it0 = fv.value_at(lp.iter, lp, depth=2)
+            if pm('ctr.block_type($t)', it0) is not None:
+                # the removal of accepted blocks is a fact of verify_bib / verify_bcb (ctr.remove_block under
+                # accept_after_verify): a loop over the live index list is unsafe however the verifier is reached
+                wit = 'for {} in {}: the list is the container index itself'.format(src(lp.target), src(it0))
         if not wit and fv.qual != 'Bpsec.' + meth:
             # inside a shared helper the verifier is reached through a local name; the removal of accepted blocks is a fact
             # of verify_bib / verify_bcb (ctr.remove_block under accept_after_verify), so an iteration over the live index
@@ -269,7 +275,7 @@ def c12e(tree, ob):
                 wit = 'for {} in {}: the list is the container index itself'.format(src(lp.target), src(it))
         if wit:
             ob.violate(SEC, fv.qual, 'for {} in {} (= ctr.block_type(...)): ctx.verify_*(ctr, {})'.format(src(lp.target), src(lp.iter), src(lp.target)),
-                       'a fully accepted security block is removed from the very list being iterated (block_type() returns the container index), so the next security block is never verified and the bundle is delivered', lp, [wit])
+                       'a fully accepted security block is removed from the very list being iterated (block_type() returns the container index), so the next security block is never verified and the bundle is delivered', lp, [wit], sure=True)
         else:
             ob.site(SEC, lp, meth + ': loop safe against removal of accepted blocks')
 
@@ -377,5 +383,5 @@ def decode_fails_loudly(tree, ob):
                     ob.site(rel, h, qual + ': broad handler re-raises')
                 else:
                     ob.violate(rel, qual, 'except {}: ... (goes on)'.format('/'.join(names)), 'a decode function of the generic CBOR layer catches every exception and carries on (item skipped or field left at its default): '
-                               'an undecodable item vanishes or turns into a default value instead of failing the structure it belongs to', h)
+                               'an undecodable item vanishes or turns into a default value instead of failing the structure it belongs to', h, sure=True)
     ob.site('scapy_cbor/packets.py', tree.module('scapy_cbor/packets.py').tree, 'decode functions of scapy_cbor let failures propagate ({} functions)'.format(n))
